@@ -41,6 +41,8 @@ def run(ctx: Ctx) -> None:
     shapes.rule_node_order(ctx)
     from ..rules import loops
     loops.rule_view_stale(ctx, SRC)
+    from ..rules import tableau as _tb
+    _tb.rule_sign_carry(ctx, [SRC, STATE])
     numeric.rule_gf2round(ctx, armed=[(SRC, "_graph_finder")],
                           advisory=[(SRC, "_phase_correction"), (LCE, "_solution_basis_finder"), (LCE, "_vec_solution_finder")])
     ctx.floor("flow.missing-return", 25)
@@ -137,6 +139,7 @@ def _diag_view(src: str) -> str:
 
 
 KNOCKOUTS = [
+    Knockout("clifford-input-signs-dropped", SRC, sub_once("        tab = state.to_stabilizer()\n", "        tab = StabilizerTableau(state.stabilizer)\n"), "sign.carry", "without signs"),
     Knockout("convert-from-stale-copy", STATE, sub_once("            self._rep_data = conversion_func(tmp_data)", "            self._rep_data = conversion_func(self._initial_data)"), "table.convert", "not computed from the current data"),
     Knockout("diag-view-read-late", SRC, _diag_view, "view.stale", "read after in-place modification"),
     Knockout("canon-compare", SRC, sub_once("    new_tab = canonical_form(run_circuit(tab1.copy(), gate_list))", "    new_tab = run_circuit(tab1.copy(), gate_list)"), "canon.compare", "new_tab"),
